@@ -16,6 +16,7 @@ import fcntl
 import hashlib
 import json
 import os
+import re
 import shutil
 import subprocess
 import sys
@@ -349,7 +350,12 @@ def load_known():
 
 def known_match(prop, sig, known):
     for k in known:
-        if k.get("property") == prop and k.get("status") == "known" and k.get("sig") == sig:
+        if k.get("property") != prop or k.get("status") != "known":
+            continue
+        if k.get("sig") == sig:
+            return k
+        # a finding may cover a closed family of signatures (same root cause at several entry points)
+        if k.get("sig_regex") and re.fullmatch(k["sig_regex"], sig):
             return k
     return None
 
